@@ -1,0 +1,50 @@
+//go:build verif
+
+package animation
+
+import (
+	"image"
+	"image/color"
+)
+
+// Re-exports for the /verif harness (built with -tags verif only). Add-only:
+// nothing in this file is referenced by the library itself.
+
+// VerifQualityToMaxDiff exposes qualityToMaxDiff.
+func VerifQualityToMaxDiff(quality int) int { return qualityToMaxDiff(quality) }
+
+// VerifPixelsAreSimilar exposes pixelsAreSimilar.
+func VerifPixelsAreSimilar(src, dst color.NRGBA, maxAllowedDiff int) bool {
+	return pixelsAreSimilar(src, dst, maxAllowedDiff)
+}
+
+// VerifIsLosslessBlendingPossible exposes isLosslessBlendingPossible.
+func VerifIsLosslessBlendingPossible(src, dst *image.NRGBA, rect image.Rectangle) bool {
+	return isLosslessBlendingPossible(src, dst, rect)
+}
+
+// VerifIsLossyBlendingPossible exposes isLossyBlendingPossible.
+func VerifIsLossyBlendingPossible(src, dst *image.NRGBA, rect image.Rectangle, quality int) bool {
+	return isLossyBlendingPossible(src, dst, rect, quality)
+}
+
+// VerifFindChangedRect exposes findChangedRect.
+func VerifFindChangedRect(prev, curr *image.NRGBA) image.Rectangle {
+	return findChangedRect(prev, curr)
+}
+
+// VerifSnapToEven exposes snapToEven.
+func VerifSnapToEven(r image.Rectangle) image.Rectangle { return snapToEven(r) }
+
+// VerifSanitizeKeyframeOptions exposes sanitizeKeyframeOptions.
+func VerifSanitizeKeyframeOptions(kmin, kmax int) (int, int) {
+	sanitizeKeyframeOptions(&kmin, &kmax)
+	return kmin, kmax
+}
+
+// VerifEncoderState reports the optimisation state of an AnimEncoder:
+// frameCount, countSinceKeyframe, prevFrameRect, prevMuxIndex and the
+// sanitised Kmin/Kmax/LoopCount.
+func VerifEncoderState(e *AnimEncoder) (frameCount, countSinceKeyframe int, prevFrameRect image.Rectangle, prevMuxIndex, kmin, kmax, loop int) {
+	return e.frameCount, e.countSinceKeyframe, e.prevFrameRect, e.prevMuxIndex, e.opts.Kmin, e.opts.Kmax, e.opts.LoopCount
+}
